@@ -12,6 +12,17 @@ def model_extra(ctx, execs):
     executor_sweep(ctx, STRICT["C10"], tag="ex_C10_pre", pre=(2,), budget=(3 if ctx.quick else None),
                    scripts_sets=[[["ok"], ["step", "step", "ok"]], [["step", "ok"], ["tsusp", "step", "ok"], ["fail"]]],
                    configs=[(0, 1, 99, 999), (0, 0, 0, 999), (1, 1, 99, 999)])
+    # retrying steps: the READY attempt after an in-process resubmission (no update before the function) + the pinned variant
+    executor_sweep(ctx, STRICT["C10"] + ["NoFunctionAfterParentDone"], tag="ex_C10_retry", budget=(2 if ctx.quick else None),
+                   scripts_sets=[[["step", "ok"], ["sfail", "sretry", "step", "ok"]], [["sfinal", "fail"], ["sfail", "sretry", "ok"], ["step", "ok"]]],
+                   configs=[(0, 1, 99, 999), (0, 0, 0, 999)])
+    mod, cfg = exec_mc("exp_C10_noguard", [["step", "ok"], ["sfail", "sretry", "step", "ok"]], 0, 1, 99, 999, ["NoDescendantAfterParentDone"],
+                       step_guard=False)
+    res = run_tlc(mod, cfg, "exp_C10_noguard", timeout_s=900)
+    require_ok(res, "Executor.tla probe FixStepGuard=FALSE")
+    ctx.add_tlc(res, "probe: without the explicit orphan check a READY retry attempt runs its function under a completed context")
+    if res.ok or res.violated != "NoDescendantAfterParentDone":
+        raise MachineryError(f"probe FixStepGuard=FALSE: expected NoDescendantAfterParentDone to fail, got ok={res.ok} {res.violated}")
     mod, cfg = exec_mc("exp_C10_nowalk", [["ok"], ["step", "step", "ok"]], 0, 1, 99, 999, ["NoDescendantAfterParentDone"], pre=(2,),
                        ancestor_walk=False)
     res = run_tlc(mod, cfg, "exp_C10_nowalk", timeout_s=600)
